@@ -411,6 +411,26 @@ func (g *G) optBoolShape(d int) *Node {
 		b = g.safeOperand("bool")
 		g.diverted["c03.algebraic-identities-assume-numeric-total-operand"]++
 	}
+	if g.pct("mixedlit", 14) {
+		// an int meeting a float of the same (or a neighbouring) value under a comparison, as literals
+		// or through variables the optimizer can propagate: the VM compares them numerically
+		n := int64(g.n("mlv", 5))
+		f := float64(n)
+		if g.pct("mlne", 30) {
+			f += 0.5
+		}
+		l, r := Int(n), Float(f)
+		if g.pct("mlvar", 50) {
+			if vs := g.visible("int", false); len(vs) > 0 {
+				l = Var(g.pick("mlvn", vs))
+			}
+		}
+		if g.pct("mlswap", 50) {
+			l, r = r, l
+		}
+		g.event("int-float-literal-comparison")
+		return Bin(g.pick("mlop", []string{"==", "!=", "==", "<", "<=", ">", ">="}), l, r)
+	}
 	switch g.n("bsh", 8) {
 	case 0:
 		return Bin("&&", Bool(true), b)
